@@ -356,7 +356,7 @@ fn main() {
             ("kid".to_string(), Tpl::new(Some("base"), vec![Item::Block("y".into(), vec![Item::Text(4), Item::Super])])),
         ];
         run.case(&none, &ok, &["corpus:parent-includes-partial"], None);
-        // include of a child template (D9 territory: the child's own main chunk runs)
+        // include of a child template: rendered from its root ancestor's chunk (D9 repaired)
         let d9 = vec![
             ("base".to_string(), Tpl::new(None, vec![Item::Text(1), Item::Block("y".into(), vec![Item::Text(2)]), Item::Text(3)])),
             ("kid".to_string(), Tpl::new(Some("base"), vec![Item::Text(4), Item::Block("y".into(), vec![Item::Text(5), Item::Super]), Item::Text(6)])),
